@@ -21,6 +21,7 @@ import (
 
 	"github.com/bluekeyes/go-gitdiff/gitdiff"
 	"github.com/rogpeppe/go-internal/lockedfile"
+	"mvdan.cc/garble/internal/verifhook"
 )
 
 const (
@@ -235,6 +236,7 @@ func PatchLinker(goRoot, goVersion, cacheDir, tempDir string) (string, func(), e
 		return "", nil, err
 	}
 
+	verifhook.Event("link.lock")
 	// If build is successful, mutex unlocking must be on the caller's side
 	successBuild := false
 	defer func() {
@@ -247,6 +249,7 @@ func PatchLinker(goRoot, goVersion, cacheDir, tempDir string) (string, func(), e
 	if err != nil {
 		return "", nil, err
 	}
+	verifhook.Event("link.check", "ok", isCorrectVer && fileExists(outputLinkPath))
 	if isCorrectVer && fileExists(outputLinkPath) {
 		successBuild = true
 		return outputLinkPath, unlock, nil
@@ -255,16 +258,23 @@ func PatchLinker(goRoot, goVersion, cacheDir, tempDir string) (string, func(), e
 	srcDir := filepath.Join(goRoot, "src")
 	workingDir := filepath.Join(tempDir, "linker-src")
 
+	verifhook.Point("link.beforePatch")
 	overlay, err := applyPatches(srcDir, workingDir, modFiles, patches)
 	if err != nil {
 		return "", nil, err
 	}
+	verifhook.Event("link.build.begin")
+	verifhook.Point("link.beforeBuild")
 	if err := buildLinker(goRoot, workingDir, overlay, outputLinkPath); err != nil {
 		return "", nil, err
 	}
+	verifhook.Event("link.build.end", "digest", verifhook.FileDigest(outputLinkPath))
+	verifhook.Point("link.afterBuild")
 	if err := writeVersion(outputLinkPath, goVersion, patchesVer); err != nil {
 		return "", nil, err
 	}
+	verifhook.Event("link.stamp")
+	verifhook.Point("link.afterStamp")
 	successBuild = true
 	return outputLinkPath, unlock, nil
 }
